@@ -211,7 +211,7 @@ func (fr *frame) effectFree(c *ssa.CallCommon) bool {
 		return false
 	}
 	switch externKey(f) {
-	case "strings.HasPrefix", "strings.HasSuffix", "strings.Contains", "strings.TrimPrefix", "strings.TrimSuffix", "strings.EqualFold":
+	case "strings.HasPrefix", "strings.HasSuffix", "strings.Contains", "strings.TrimPrefix", "strings.TrimSuffix", "strings.EqualFold", "strings.CutPrefix", "strings.CutSuffix":
 		return true
 	}
 	if ec := fr.u.eng.externs[externKey(f)]; ec != nil && ec.Pure {
